@@ -9,12 +9,13 @@ def run(ctx):
     out = ctx.harness(["output", "--random", "1500" if quick else "100000", "--maxv", "9" if quick else "14"], timeout=3000)
     scns = common.split_scenarios(out)
     for s, evs in scns:
-        if evs and evs[0].get("ev") == "Render" and len(evs[0]["route"]) >= 2:
+        if evs and evs[0].get("ev") == "Render" and len(evs[0].get("route", [])) >= 2:
             ctx.note_nontrivial(common.chash(s))
     rendered = [(s, e) for s, e in scns if e]
     ctx.extra["rendered"] = len(rendered)
     for s, evs in rendered[:1] + rendered[-1:]:
-        ctx.sample({"route": evs[0]["route"], "tree": evs[0]["tree"], "out_wkt": evs[0]["out"]["wkt"]})
+        # (an event of another kind - an error of the code under test - is judged by the trace, not here)
+        ctx.sample({"route": evs[0].get("route"), "tree": evs[0].get("tree"), "out_wkt": (evs[0].get("out") or {}).get("wkt"), "first_event": evs[0].get("ev")})
     ctx.validate("Trace_Output", rendered, label="renderings")
     ctx.rule = ("scenario = route and tree of a real Dijkstra search on a seeded network x geometry table with 2..4 distinctive "
                 "points per edge (25 % of the scenarios with a table that is too short) x all five route and tree formats "
